@@ -4,6 +4,7 @@ import (
 	"fmt"
 	"go/token"
 	"go/types"
+	"sort"
 	"strings"
 
 	"golang.org/x/tools/go/ssa"
@@ -444,7 +445,8 @@ func planeIndexUses(p *Prog, f *ssa.Function, iv ssa.Value) []idxUse {
 						case *ssa.FreeVar:
 							out = append(out, idxUse{x, delta})
 						case *ssa.UnOp:
-							if _, isFV := bv.X.(*ssa.FreeVar); isFV {
+							// the receiver captured by a closure (free variable), or spilled to a cell for one
+							if isOwnIndex(bv) {
 								out = append(out, idxUse{x, delta})
 							}
 						}
@@ -508,7 +510,7 @@ var wholeIndexOps = []string{
 
 // wideningOps grow bA on demand; existing negative values must be sign-extended into every new
 // plane up to and including the new top plane (DESIGN §3.8 PC2).
-var wideningOps = []string{"(*roaring64.BSI).SetBigValue", "(*roaring64.BSI).SetBigMany"}
+var wideningOps = []string{"(*roaring64.BSI).SetBigValue", "(*roaring64.BSI).SetBigMany", "(*roaring64.BSI).ParOr"}
 
 func rulePC1(p *Prog) *RuleResult {
 	res := newResult("PC1", ruleDoc["PC1"], 10)
@@ -599,8 +601,207 @@ func affLoads(v ssa.Value, depth int, out *[]*ssa.UnOp) {
 	}
 }
 
+// planeCountOf: v = len(x.bA) + c for some index x (any index, not only the receiver).
+func planeCountOf(v ssa.Value) (base ssa.Value, c int64, ok bool) {
+	switch x := v.(type) {
+	case *ssa.Convert:
+		return planeCountOf(x.X)
+	case *ssa.BinOp:
+		k, isC := constIntVal(x.Y)
+		if !isC {
+			return nil, 0, false
+		}
+		b, c0, ok := planeCountOf(x.X)
+		switch {
+		case ok && x.Op == token.ADD:
+			return b, c0 + k, true
+		case ok && x.Op == token.SUB:
+			return b, c0 - k, true
+		}
+	case *ssa.Call:
+		if bi, isB := x.Call.Value.(*ssa.Builtin); isB && bi.Name() == "len" {
+			if b, ok := isBAField(x.Call.Args[0]); ok {
+				return b, 0, true
+			}
+		}
+	}
+	return nil, 0, false
+}
+
+// growthExempt: methods of the 64-bit index that append to the receiver's bA without having to
+// sign-extend, one reason each.
+var growthExempt = map[string]string{
+	"(*roaring64.BSI).UnmarshalBinary": "decoder: fills the plane array from the encoded planes, nothing is widened",
+	"(*roaring64.BSI).ReadFrom":        "decoder: fills the plane array from the stream, nothing is widened",
+	"(*roaring64.BSI).Add":             "ripple-carry addition: Add/Increment are defined on non-negative values only (C19), the carry plane is a value plane",
+	"(*roaring64.BSI).Increment":       "ripple-carry addition: Add/Increment are defined on non-negative values only (C19), the carry plane is a value plane",
+	"(*roaring64.BSI).IncrementAll":    "ripple-carry addition: Add/Increment are defined on non-negative values only (C19), the carry plane is a value plane",
+}
+
 func rulePC2(p *Prog) *RuleResult {
-	res := newResult("PC2", ruleDoc["PC2"], 2)
+	res := newResult("PC2", ruleDoc["PC2"], 5)
+	// completeness of the table of widening operations: every method that appends to its own bA is
+	// either checked for sign extension below or exempt with a reason
+	{
+		var names []string
+		var methods []*ssa.Function
+		for _, f := range p.sourceFns() {
+			if fnPkgPath(f) != pkgPathOf("roaring64") || f.Blocks == nil || f.Signature.Recv() == nil || !strings.HasSuffix(typeShort(f.Signature.Recv().Type()), "BSI") {
+				continue
+			}
+			methods = append(methods, f)
+		}
+		grows := map[*ssa.Function]bool{}
+		for _, f := range methods {
+			for _, b := range f.Blocks {
+				for _, ins := range b.Instrs {
+					st, ok := ins.(*ssa.Store)
+					if !ok {
+						continue
+					}
+					fa, ok := st.Addr.(*ssa.FieldAddr)
+					if !ok || !strings.HasSuffix(fieldName(fa.X.Type(), fa.Field), ".bA") || !isOwnIndex(fa.X) {
+						continue
+					}
+					if c, ok := st.Val.(*ssa.Call); ok {
+						if bi, ok := c.Call.Value.(*ssa.Builtin); ok && bi.Name() == "append" {
+							grows[f] = true
+						}
+					}
+				}
+			}
+		}
+		// a helper that grows the array on behalf of its caller (called on the caller's own index) makes the caller a grower
+		for changed := true; changed; {
+			changed = false
+			for _, f := range methods {
+				if grows[f] {
+					continue
+				}
+				for _, b := range f.Blocks {
+					for _, ins := range b.Instrs {
+						if c, ok := ins.(*ssa.Call); ok {
+							if g := c.Call.StaticCallee(); g != nil && grows[g] && !isExportedAPI(g) && len(c.Call.Args) > 0 && isOwnIndex(c.Call.Args[0]) {
+								grows[f] = true
+								changed = true
+							}
+						}
+					}
+				}
+			}
+		}
+		for f := range grows {
+			// the obligation sits on the exported operations; unexported helpers are covered through them
+			if isExportedAPI(f) {
+				names = append(names, fname(f))
+			}
+		}
+		sort.Strings(names)
+		for _, n := range names {
+			c := n + "|grows bA"
+			listed := false
+			for _, w := range wideningOps {
+				if w == n {
+					listed = true
+				}
+			}
+			switch {
+			case listed:
+				res.ok(c, "-", "widening operation: sign extension checked below")
+			case growthExempt[n] != "":
+				res.ok(c, "-", "exempt: "+growthExempt[n])
+			default:
+				res.bad(c, "-", "this method appends planes to its own index but is neither checked for sign extension nor exempt: existing negative values lose their sign when the sign slot moves")
+			}
+		}
+	}
+	// operands narrower than the result: the n-ary union merges plane i of every operand; an operand
+	// without plane i is sign-extended, i.e. contributes its last plane
+	if f := p.Func("(*roaring64.BSI).ParOr"); f == nil {
+		res.undecided("(*roaring64.BSI).ParOr|narrow operand", "-", "anchor not found")
+	} else {
+		n := 0
+		for _, b := range f.Blocks {
+			ifi, ok := b.Instrs[len(b.Instrs)-1].(*ssa.If)
+			if !ok {
+				continue
+			}
+			cmp, ok := ifi.Cond.(*ssa.BinOp)
+			if !ok {
+				continue
+			}
+			// len(x.bA) > i  |  i < len(x.bA)   with x another index than the receiver
+			var lenSide ssa.Value
+			no := 1 // successor taken when the operand has no plane i
+			switch cmp.Op {
+			case token.GTR:
+				lenSide = cmp.X
+			case token.LSS:
+				lenSide = cmp.Y
+			case token.LEQ:
+				lenSide, no = cmp.X, 0
+			case token.GEQ:
+				lenSide, no = cmp.Y, 0
+			default:
+				continue
+			}
+			base, lc, ok := planeCountOf(lenSide)
+			if !ok || lc != 0 || isOwnIndex(base) {
+				continue
+			}
+			// the other side is the plane index: the branch taken when the plane exists reads x.bA[i]
+			other := cmp.Y
+			if lenSide == cmp.Y {
+				other = cmp.X
+			}
+			reads := false
+			for _, rb := range f.Blocks {
+				if !b.Succs[1-no].Dominates(rb) {
+					continue
+				}
+				for _, ins := range rb.Instrs {
+					if ia, ok := ins.(*ssa.IndexAddr); ok && ia.Index == other {
+						if b2, ok := isBAField(ia.X); ok && b2 == base {
+							reads = true
+						}
+					}
+				}
+			}
+			if !reads {
+				continue
+			}
+			n++
+			c := fmt.Sprintf("(*roaring64.BSI).ParOr|narrow operand#%d", n)
+			region := b.Succs[no]
+			found := false
+			for _, rb := range f.Blocks {
+				if !region.Dominates(rb) {
+					continue
+				}
+				for _, ins := range rb.Instrs {
+					ia, ok := ins.(*ssa.IndexAddr)
+					if !ok {
+						continue
+					}
+					b2, ok := isBAField(ia.X)
+					if !ok || b2 != base {
+						continue
+					}
+					if b3, ic, ok := planeCountOf(ia.Index); ok && b3 == base && ic == -1 {
+						found = true
+					}
+				}
+			}
+			if found {
+				res.ok(c, p.ipos(ifi), "an operand without plane i contributes its sign plane bA[len(bA)-1]")
+			} else {
+				res.bad(c, p.ipos(ifi), "an operand without plane i contributes nothing to it: the planes are merged index by index, so the negative values of a narrower operand lose their sign (its sign plane lands on a value plane of the result)")
+			}
+		}
+		if n == 0 {
+			res.undecided("(*roaring64.BSI).ParOr|narrow operand", p.pos(f.Pos()), "no comparison of an operand's plane count with the plane index found: re-anchor the rule")
+		}
+	}
 	for _, name := range wideningOps {
 		f := p.Func(name)
 		if f == nil {
